@@ -131,6 +131,14 @@ Definition max_event_length : N := 65536.
 Definition check_id (sigil : N) (id : bytes) : bool :=
   has_colon id && (match id with c :: _ => c =? sigil | [] => false end) && (len id <=? max_id_length).
 
+(* utf8.RuneCountInString of a decoded (hence valid UTF-8) string: the non-continuation bytes *)
+Definition rune_count (s : bytes) : N :=
+  len (filter (fun c => negb ((128 <=? c) && (c <=? 191))) s).
+(* the room-ID form of checkID in the parsers (notOnlyTooManyBytes): more than 255 bytes is not
+   refused there as long as the code points stay within 255 - CheckFields reports it *)
+Definition check_id_parse (sigil : N) (id : bytes) : bool :=
+  has_colon id && (match id with c :: _ => c =? sigil | [] => false end) && (rune_count id <=? max_id_length).
+
 Definition is_dns_char (c : N) : bool :=
   ((65 <=? c) && (c <=? 90)) || ((97 <=? c) && (c <=? 122)) || is_digit c || (c =? 45) || (c =? 46).
 
@@ -440,7 +448,10 @@ Section Crypto.
     && (len (canon_print (e_json e)) <=? max_event_length)
     && (len (f_type e) <=? max_id_length)
     && match f_skey e with Some k => len k <=? max_id_length | None => true end
-    && (bytes_eqb (e_ver e) pseudo_ids_version || check_id 64 (f_sender e)).
+    && (if bytes_eqb (e_ver e) pseudo_ids_version then len (f_sender e) <=? max_id_length
+        else check_id 64 (f_sender e))
+    (* the byte size of RoomID(), which for the create event of an eventV3 is derived (44 bytes) *)
+    && (((e_class e =? 3) && is_create e) || (len (f_room e) <=? max_id_length)).
 
   (* ---------- parse paths ---------- *)
   Inductive presult := PErr | POk (e : ev) (fields_ok : bool).
@@ -452,8 +463,9 @@ Section Crypto.
     let create := bytes_eqb (or_empty (dec_str (bs "type") j)) create_type
                   && match dec_optstr (bs "state_key") j with Some (Some []) => true | _ => false end in
     if class =? 3 then
-      if create then true else is_prefix [33] room && room_id_valid room
-    else check_id 33 room && room_id_valid room.
+      if create then true
+      else is_prefix [33] room && room_id_valid room && (rune_count room <=? max_id_length)
+    else check_id_parse 33 room && room_id_valid room.
 
   Definition mk_parsed (ver : bytes) (class : N) (j : json) (redacted : bool) (id : option bytes) : ev :=
     mkEv ver class j redacted
